@@ -43,6 +43,10 @@ FINDINGS = [
      'what': 'md_in_html: text after a block-level void tag inside a markdown="1" container (`<div markdown="1"><hr>x`) becomes the text of '
              'the void element; html writes `<hr>x`, xhtml writes `<hr />` and the text is lost (document-level form of F-C14-1)',
      'witness': {'kind': 'doc', 'src': '<div markdown="1"><hr>x', 'extensions': ['md_in_html']}},
+    {'id': 'F-C14-2', 'property': 'C14', 'status': 'open',
+     'what': 'admonition: a continuation block indented under a nested list whose last child is an `hr` (`- - x / - y / ***`) is parsed INTO the '
+             '`hr` (parse_content follows last-child links without a tag test): html writes `<hr><p>text</p>`, xhtml drops the paragraph',
+     'witness': {'kind': 'doc', 'src': '!!! note\n    - - x\n        - y\n        ***\n\n            text', 'extensions': ['admonition']}},
     # toc.render_inner_html serialises the heading with the format-dependent serializer and un-escapes the STRING: a backslash-escaped
     # `>` becomes a raw `>` inside an attribute value, strip_tags cuts the tag there and keeps its rest (` />` / `>` / `b="b"` / `b`)
     {'id': 'F-C14-3', 'property': 'C14', 'status': 'open',
